@@ -180,7 +180,7 @@ impl Ctx {
             rule: Mutex::new(String::new()),
             assumptions: Mutex::new(vec![]),
             infra_error: Mutex::new(None),
-            hang_limit: std::time::Duration::from_secs(900),
+            hang_limit: std::time::Duration::from_secs(2700),
             hang_is_violation: false,
         }
     }
